@@ -120,6 +120,50 @@ def parallel_done_cases(rng, n):
     return out
 
 
+def parallel_done_simul_cases(rng, n):
+    """a parallel several of whose regions enter their final state in the SAME microstep (one event enabling a transition in
+    each region, or one transition with a target in each region), next to an observer region that counts the done.state.<region>
+    events seen before done.state.<parallel> and notices a second done.state.<parallel>"""
+    out = []
+    for _ in range(n):
+        nr = rng.randint(2, 3)
+        shared = rng.sample(range(nr), rng.randint(2, nr))          # the regions that finish together
+        multi = rng.random() < 0.4
+        regs, order = [], []
+        for i in range(nr):
+            mid = rng.random() < 0.4
+            last = "gg" if i in shared and not multi else "g%d" % i
+            if mid:
+                body = "(state r%da (t m%d - e (r%db))) (state r%db (t %s - e (r%df)))" % (i, i, i, i, last, i)
+                order.append("m%d" % i)
+            else:
+                body = "(state r%da (t %s - e (r%df)))" % (i, last, i)
+            regs.append("(state r%d (init r%da) %s (final r%df))" % (i, i, body, i))
+        rng.shuffle(order)
+        alone = [i for i in range(nr) if i not in shared or multi]
+        if multi:
+            alone = [i for i in range(nr) if i not in shared]
+            src = rng.choice(["work", "outer", "c0"])
+            jump = "(t jump - e (%s))" % " ".join("r%df" % i for i in sorted(shared))
+        else:
+            src, jump = None, ""
+        tail = ["g%d" % i for i in alone]
+        rng.shuffle(tail)
+        k = rng.randrange(len(tail) + 1)
+        tail[k:k] = ["jump" if multi else "gg"]
+        order += tail + ["fin"]
+        anyr = ",".join("done.state.r%d" % i for i in range(nr))
+        obs = ""
+        for c in range(nr + 1):
+            more = "(t %s - e (c%d)) (t done.state.work - e (early%d))" % (anyr, c + 1, c) if c < nr else "(t done.state.work - e (ok))"
+            obs += "(state c%d %s%s) " % (c, more, " " + jump if src == "c0" and c == 0 else "")
+        obs += "(state ok (t done.state.work - e (twice)) (t %s - e (late))) (state twice) (state late) " % anyr + " ".join("(state early%d)" % c for c in range(nr))
+        sx = ("(scxml root (init outer) (parallel outer (parallel work (onentry (log 1 IN)) %s%s) (state obs (init c0) %s) (t fin - e (pass))%s) (final pass))"
+              % (" ".join(regs), " " + jump if src == "work" else "", obs, " " + jump if src == "outer" else ""))
+        out.append((charts.from_sexpr(sx), order))
+    return out
+
+
 def nested_if_cases(rng, n, nvars=2):
     """executable content with <if>/<elseif>/<else> nested three deep, conditions on variables set just before"""
     out = []
